@@ -291,3 +291,6 @@ Proof.
   intros Hlen H. unfold gather, find_indices. apply (gather_find_indices_from q g l r d db 0).
   intros j Hj Hq. cbn [Nat.add]. rewrite get_clamp_lt by lia. apply H; assumption.
 Qed.
+
+Lemma filter_length_le {A} (p : A -> bool) (l : list A) : length (filter p l) <= length l.
+Proof. induction l as [|a l IH]; cbn; [lia|]. destruct (p a); cbn; lia. Qed.
